@@ -71,9 +71,9 @@ theorem post_run (acts : List Act) :
     ∀ fuel,
       (∀ idx ev ps ps' r, NoHolderFrom acts idx → Clean ps → doActs fuel acts idx ev ps = (ps', r) →
         Clean ps' ∧ ps'.ins = ps.ins ∧
-        ((r = .passed ∧ ps'.toks = ps.toks) ∨ (∃ l, r = .stopped l ∧ ps'.toks = (fin ps ev true).toks ∧ ev ≠ .child) ∨
+        ((r = .passed ∧ ps'.toks = ps.toks) ∨ (∃ l, r = .stopped l ∧ ps'.toks = (fin ps ev true).toks ∧ ∀ sk, ev ≠ .child sk) ∨
          (∃ w, r = .halt w ∧ ps'.toks = ps.toks))) ∧
-      (∀ idx k ps ps' r, NoHolderFrom acts (idx+1) → Clean ps → spawnKids fuel acts idx k ps = (ps', r) →
+      (∀ idx sk k ps ps' r, NoHolderFrom acts (idx+1) → Clean ps → spawnKids fuel acts idx sk k ps = (ps', r) →
         Clean ps' ∧ ps'.ins = ps.ins ∧ ps'.toks = ps.toks) := by
   intro fuel
   induction fuel with
@@ -82,7 +82,7 @@ theorem post_run (acts : List Act) :
     · intro idx ev ps ps' r _ hc h
       rw [doActs.eq_def] at h; simp only at h
       cases h; exact ⟨hc, rfl, Or.inr (Or.inr ⟨_, rfl, rfl⟩)⟩
-    · intro idx k ps ps' r _ hc h
+    · intro idx sk k ps ps' r _ hc h
       rw [spawnKids.eq_def] at h; simp only at h
       cases h; exact ⟨hc, rfl, rfl⟩
   | succ n ih =>
@@ -91,38 +91,44 @@ theorem post_run (acts : List Act) :
     · intro idx ev ps ps' r hno hc h
       have hno1 : NoHolderFrom acts (idx+1) := fun j g hj => hno j g (by omega)
       rw [doActs.eq_def] at h; simp only at h
-      split at h
-      · cases h; exact ⟨hc, rfl, Or.inl ⟨rfl, rfl⟩⟩
-      · -- plain
-        rw [resetBusy_clean hc] at h
-        split at h
-        · exact ihA _ _ _ _ _ hno1 hc h
-        · cases h; exact ⟨hc, rfl, Or.inl ⟨rfl, rfl⟩⟩
-        · rename_i hv
-          cases h
-          refine ⟨clean_fin hc _ _, fin_ins _ _ _, Or.inr (Or.inl ⟨_, rfl, rfl, ?_⟩)⟩
-          intro hch; subst hch; simp [plainVerdict] at hv
-      · -- spawner
-        split at h
-        · rename_i e
-          split at h
-          · rw [resetBusy_clean hc] at h; exact ihA _ _ _ _ _ hno1 hc h
-          · split at h
-            · rename_i ps1 why hk
+      cases hget : acts[idx]? with
+      | none => rw [hget] at h; simp only at h; cases h; exact ⟨hc, rfl, Or.inl ⟨rfl, rfl⟩⟩
+      | some a =>
+        rw [hget] at h; simp only at h
+        by_cases hsk : (!isBusy ps idx && skips ev idx) = true
+        · rw [if_pos hsk] at h; exact ihA _ _ _ _ _ hno1 hc h
+        · rw [if_neg hsk] at h
+          cases a with
+          | plain i =>
+            simp only at h
+            rw [resetBusy_clean hc] at h
+            split at h
+            · exact ihA _ _ _ _ _ hno1 hc h
+            · cases h; exact ⟨hc, rfl, Or.inl ⟨rfl, rfl⟩⟩
+            · rename_i hv
               cases h
-              obtain ⟨c1, i1, t1⟩ := ihK _ _ _ _ _ hno1 hc hk
-              exact ⟨c1, i1, Or.inr (Or.inr ⟨_, rfl, t1⟩)⟩
-            · rename_i ps1 hk
-              obtain ⟨c1, i1, t1⟩ := ihK _ _ _ _ _ hno1 hc hk
-              rw [busyTotal_clean c1] at h
-              simp only [↓reduceIte, resetBusy_clean c1] at h
-              cases h
-              exact ⟨c1, i1, Or.inl ⟨rfl, t1⟩⟩
-        · rw [resetBusy_clean hc] at h; exact ihA _ _ _ _ _ hno1 hc h
-      · -- holder: excluded
-        rename_i f hget
-        exact absurd hget (hno idx f (Nat.le_refl _))
-    · intro idx k ps ps' r hno hc h
+              refine ⟨clean_fin hc _ _, fin_ins _ _ _, Or.inr (Or.inl ⟨_, rfl, rfl, ?_⟩)⟩
+              intro sk hch; subst hch; simp [plainVerdict] at hv
+          | spawner =>
+            simp only at h
+            split at h
+            · rename_i e
+              split at h
+              · rw [resetBusy_clean hc] at h; exact ihA _ _ _ _ _ hno1 hc h
+              · split at h
+                · rename_i ps1 why hk
+                  cases h
+                  obtain ⟨c1, i1, t1⟩ := ihK _ _ _ _ _ _ hno1 hc hk
+                  exact ⟨c1, i1, Or.inr (Or.inr ⟨_, rfl, t1⟩)⟩
+                · rename_i ps1 hk
+                  obtain ⟨c1, i1, t1⟩ := ihK _ _ _ _ _ _ hno1 hc hk
+                  rw [busyTotal_clean c1] at h
+                  simp only [↓reduceIte, resetBusy_clean c1] at h
+                  cases h
+                  exact ⟨c1, i1, Or.inl ⟨rfl, t1⟩⟩
+            · rw [resetBusy_clean hc] at h; exact ihA _ _ _ _ _ hno1 hc h
+          | holder f => exact absurd hget (hno idx f (Nat.le_refl _))
+    · intro idx sk k ps ps' r hno hc h
       cases k with
       | zero => rw [spawnKids.eq_def] at h; simp only at h; cases h; exact ⟨hc, rfl, rfl⟩
       | succ k =>
@@ -134,15 +140,15 @@ theorem post_run (acts : List Act) :
           refine ⟨c1, i1, ?_⟩
           rcases t1 with ⟨_, t⟩ | ⟨l, _, _, hne⟩ | ⟨w, _, t⟩
           · exact t
-          · exact absurd rfl hne
+          · exact absurd rfl (hne sk)
           · exact t
         · rename_i ps1 r1 hnh hd
           obtain ⟨c1, i1, t1⟩ := ihA _ _ _ _ _ hno hc hd
-          obtain ⟨c2, i2, t2⟩ := ihK _ _ _ _ _ hno c1 h
+          obtain ⟨c2, i2, t2⟩ := ihK _ _ _ _ _ _ hno c1 h
           refine ⟨c2, i2.trans i1, t2.trans ?_⟩
           rcases t1 with ⟨_, t⟩ | ⟨l, _, _, hne⟩ | ⟨w, _, t⟩
           · exact t
-          · exact absurd rfl hne
+          · exact absurd rfl (hne sk)
           · exact t
 
 theorem flush_state {ps : PS} {h : Nat} {x : EvSpec} (hh : Holding ps h x) (t : Op) :
@@ -220,7 +226,7 @@ def Post (acts : List Act) (h : Nat) (r : Res) (ev : Ev) (ps' : PS) (d' : DS) (c
     match ev with
     | .reg e => StateOK acts h ps' d' none e.seq
     | .tmo => StateOK acts h ps' d' c lb
-    | .child => False
+    | .child _ => False
   | .halt _ => True
 
 theorem d_drop_inhand {d : DS} {q : Nat} (hq : d.inhand = some q) :
@@ -342,7 +348,7 @@ theorem post_sim (acts : List Act) (h : Nat) (hch : Chain acts h)
       refine ⟨[.drop e.seq], _, by simp [t, fin_toks], d_drop_inhand hq, i1, ?_⟩
       exact ⟨hp, rfl, by simp, Or.inl ⟨c1, hd0⟩⟩
     | tmo => exact ⟨[], d, by simp [t, fin_toks], rfl, i1, ⟨hp, hi, hb, Or.inl ⟨c1, hd0⟩⟩⟩
-    | child => exact absurd rfl hne
+    | child sk => exact absurd rfl (hne sk)
   · exact ⟨[], d, by simp [t], rfl, i1, trivial⟩
 
 theorem drun_two {d d1 d2 : DS} {a b : List Op} (h1 : drun d a = some d1) (h2 : drun d1 b = some d2) :
@@ -357,8 +363,8 @@ theorem pre_run (acts : List Act) (h : Nat) (hch : Chain acts h) :
         doActs fuel acts idx ev ps = (ps', r) →
         ∃ extra d', ps'.toks = ps.toks ++ extra ∧ drun d extra = some d' ∧ ps'.ins = ps.ins ∧
           Post acts h r ev ps' d' c lb) ∧
-      (∀ idx k ps ps' r d c lb, idx < h → StateOK acts h ps d c lb →
-        spawnKids fuel acts idx k ps = (ps', r) →
+      (∀ idx sk k ps ps' r d c lb, idx < h → StateOK acts h ps d c lb →
+        spawnKids fuel acts idx sk k ps = (ps', r) →
         ∃ extra d', ps'.toks = ps.toks ++ extra ∧ drun d extra = some d' ∧ ps'.ins = ps.ins ∧
           (r = none → StateOK acts h ps' d' c lb ∧ (k ≠ 0 → Clean ps'))) := by
   intro fuel
@@ -368,7 +374,7 @@ theorem pre_run (acts : List Act) (h : Nat) (hch : Chain acts h) :
     · intro idx ev ps ps' r d c lb _ _ _ hf
       rw [doActs.eq_def] at hf; simp only at hf; cases hf
       exact ⟨[], d, by simp, rfl, rfl, trivial⟩
-    · intro idx k ps ps' r d c lb _ _ hf
+    · intro idx sk k ps ps' r d c lb _ _ hf
       rw [spawnKids.eq_def] at hf; simp only at hf; cases hf
       exact ⟨[], d, by simp, rfl, rfl, fun h0 => by cases h0⟩
   | succ n ih =>
@@ -386,11 +392,14 @@ theorem pre_run (acts : List Act) (h : Nat) (hch : Chain acts h) :
           have h2 : acts[h]? = none := List.getElem?_eq_none_iff.2 (by omega)
           rw [h2] at hgh; cases hgh
       | some a =>
-        rw [hget] at hf
+        rw [hget] at hf; simp only at hf
         cases a with
         | plain i =>
-          simp only at hf
           have hlt : idx < h := chain_not_holder_lt hch hle hget (by intro g hg; cases hg)
+          by_cases hsk : (!isBusy ps idx && skips ev idx) = true
+          · rw [if_pos hsk] at hf; exact ihA _ _ _ _ _ _ _ _ (by omega) hs hev hf
+          rw [if_neg hsk] at hf
+          simp only at hf
           rw [stateOK_reset_ne hs (Nat.ne_of_lt hlt)] at hf
           cases hv : plainVerdict ev i with
           | pass => rw [hv] at hf; exact ihA _ _ _ _ _ _ _ _ (by omega) hs hev hf
@@ -399,7 +408,7 @@ theorem pre_run (acts : List Act) (h : Nat) (hch : Chain acts h) :
             cases ev with
             | reg e => exact hev.2 idx i hlt hget (by simpa [plainVerdict] using hv)
             | tmo => simp [plainVerdict] at hv
-            | child => simp [plainVerdict] at hv
+            | child sk => simp [plainVerdict] at hv
           | discard =>
             rw [hv] at hf; simp only at hf; cases hf
             obtain ⟨hp, hi, hb, hst⟩ := hs
@@ -413,10 +422,13 @@ theorem pre_run (acts : List Act) (h : Nat) (hch : Chain acts h) :
               · refine Or.inr ⟨x, f, holding_fin hh _ _, hgh, hd, ?_⟩
                 have := hb e.seq hev.1; omega
             | tmo => exact ⟨[], d, by simp [fin_toks], rfl, fin_ins _ _ _, ⟨hp, hi, hb, hst⟩⟩
-            | child => simp [plainVerdict] at hv
+            | child sk => simp [plainVerdict] at hv
         | spawner =>
-          simp only at hf
           have hlt : idx < h := chain_not_holder_lt hch hle hget (by intro g hg; cases hg)
+          by_cases hsk : (!isBusy ps idx && skips ev idx) = true
+          · rw [if_pos hsk] at hf; exact ihA _ _ _ _ _ _ _ _ (by omega) hs hev hf
+          rw [if_neg hsk] at hf
+          simp only at hf
           have hreset := stateOK_reset_ne hs (Nat.ne_of_lt hlt)
           cases ev with
           | reg e =>
@@ -425,10 +437,10 @@ theorem pre_run (acts : List Act) (h : Nat) (hch : Chain acts h) :
             · rw [if_pos hk, hreset] at hf
               exact ihA _ _ _ _ _ _ _ _ (by omega) hs hev hf
             · rw [if_neg hk] at hf
-              cases hsk : spawnKids n acts idx e.kids ps with
+              cases hsk2 : spawnKids n acts idx e.kidSkip e.kids ps with
               | mk ps1 r1 =>
-                rw [hsk] at hf
-                obtain ⟨extra, d1, ht, hdr, hin, hok⟩ := ihK _ _ _ _ _ _ _ _ hlt hs hsk
+                rw [hsk2] at hf
+                obtain ⟨extra, d1, ht, hdr, hin, hok⟩ := ihK _ _ _ _ _ _ _ _ _ hlt hs hsk2
                 cases r1 with
                 | some why => simp only at hf; cases hf; exact ⟨extra, d1, ht, hdr, hin, trivial⟩
                 | none =>
@@ -438,11 +450,20 @@ theorem pre_run (acts : List Act) (h : Nat) (hch : Chain acts h) :
                   cases hf
                   exact ⟨extra, d1, ht, hdr, hin, hs1, hc1⟩
           | tmo => simp only at hf; rw [hreset] at hf; exact ihA _ _ _ _ _ _ _ _ (by omega) hs hev hf
-          | child => simp only at hf; rw [hreset] at hf; exact ihA _ _ _ _ _ _ _ _ (by omega) hs hev hf
+          | child sk => simp only at hf; rw [hreset] at hf; exact ihA _ _ _ _ _ _ _ _ (by omega) hs hev hf
         | holder f =>
-          simp only at hf
           have hidx : idx = h := hch.only idx f hget
           subst hidx
+          by_cases hsk : (!isBusy ps idx && skips ev idx) = true
+          · rw [if_pos hsk] at hf
+            obtain ⟨hp, hi, hb, hst⟩ := hs
+            rcases hst with ⟨hc, hd⟩ | ⟨x, g, hh, hgh, hd, hx⟩
+            · exact post_sim acts idx hch hc ⟨hp, hi, hb, Or.inl ⟨hc, hd⟩⟩ hd hev hf
+            · exfalso
+              have : isBusy ps idx = true := by simp [isBusy, hh.1]
+              simp [this] at hsk
+          rw [if_neg hsk] at hf
+          simp only at hf
           cases ev with
           | tmo =>
             simp only at hf
@@ -525,8 +546,8 @@ theorem pre_run (acts : List Act) (h : Nat) (hch : Chain acts h) :
                   simp only [resetBusy_clean hc1] at hf
                   obtain ⟨extra2, d2, ht2, hdr2, hin2, hpost⟩ := post_sim acts idx hch hc1 hs1 hd1 hev hf
                   exact ⟨extra ++ extra2, d2, by simp [ht2, ht], drun_two hdr hdr2, by rw [hin2, hin], hpost⟩
-          | child =>
-            have hcls : joinCls .child f = .absent := rfl
+          | child sk =>
+            have hcls : joinCls (.child sk) f = .absent := rfl
             simp only [hcls] at hf
             cases hmf : (if (heldAt ps idx).isSome = true then flushAt n acts idx ps else (ps, none)) with
             | mk ps1 r1 =>
@@ -539,14 +560,14 @@ theorem pre_run (acts : List Act) (h : Nat) (hch : Chain acts h) :
                 simp only [resetBusy_clean hc1] at hf
                 obtain ⟨extra2, d2, ht2, hdr2, hin2, hpost⟩ := post_sim acts idx hch hc1 hs1 hd1 hev hf
                 exact ⟨extra ++ extra2, d2, by simp [ht2, ht], drun_two hdr hdr2, by rw [hin2, hin], hpost⟩
-    · intro idx k ps ps' r d c lb hlt hs hf
+    · intro idx sk k ps ps' r d c lb hlt hs hf
       cases k with
       | zero =>
         rw [spawnKids.eq_def] at hf; simp only at hf; cases hf
         exact ⟨[], d, by simp, rfl, rfl, fun _ => ⟨hs, fun h0 => absurd rfl h0⟩⟩
       | succ k =>
         rw [spawnKids.eq_def] at hf; simp only at hf
-        cases hd : doActs n acts (idx+1) .child ps with
+        cases hd : doActs n acts (idx+1) (.child sk) ps with
         | mk ps1 r1 =>
           rw [hd] at hf
           obtain ⟨extra, d1, ht, hdr, hin, hpost⟩ := ihA _ _ _ _ _ _ _ _ (by omega) hs (by simp [EvOK]) hd
@@ -556,7 +577,7 @@ theorem pre_run (acts : List Act) (h : Nat) (hch : Chain acts h) :
           | passed =>
             simp only at hf
             obtain ⟨hs1, hc1⟩ := hpost
-            obtain ⟨extra2, d2, ht2, hdr2, hin2, hok2⟩ := ihK _ _ _ _ _ _ _ _ hlt hs1 hf
+            obtain ⟨extra2, d2, ht2, hdr2, hin2, hok2⟩ := ihK _ _ _ _ _ _ _ _ _ hlt hs1 hf
             refine ⟨extra ++ extra2, d2, by simp [ht2, ht], drun_two hdr hdr2, by rw [hin2, hin], fun h0 => ?_⟩
             obtain ⟨hs2, hck⟩ := hok2 h0
             refine ⟨hs2, fun _ => ?_⟩
@@ -624,7 +645,7 @@ theorem stateOK_take {acts : List Act} {h : Nat} {ps : PS} {d : DS} {lb m : Nat}
 
 theorem procEv_sim (acts : List Act) (h : Nat) (hch : Chain acts h) :
     ∀ fuel ev idx ps ps' r d c lb m, idx ≤ h → StateOK acts h ps d c lb → EvOK acts h ev c →
-      ev ≠ .child → (ev = .tmo → c = none) → lb ≤ m → (∀ q, c = some q → q ≤ m) →
+      (∀ sk, ev ≠ .child sk) → (ev = .tmo → c = none) → lb ≤ m → (∀ q, c = some q → q ≤ m) →
       Above m ps.ins → ItemsOK acts h ps.ins →
       procEv fuel acts ev idx ps = (ps', r) →
       ∃ extra d', ps'.toks = ps.toks ++ extra ∧ drun d extra = some d' ∧
@@ -657,7 +678,7 @@ theorem procEv_sim (acts : List Act) (h : Nat) (hch : Chain acts h) :
           have h1 := hs1.1; have h2 := stateOK_clean_held hs1 hc1
           cases d1; simp_all
         | tmo => simp only at hf; cases hf; exact ⟨extra, d1, ht, hdr, fun h0 => absurd rfl (h0 _)⟩
-        | child => exact absurd rfl hnc
+        | child sk => exact absurd rfl (hnc sk)
       | stopped last =>
         simp only at hf
         -- the state after the event was disposed of: nothing in hand
@@ -677,7 +698,7 @@ theorem procEv_sim (acts : List Act) (h : Nat) (hch : Chain acts h) :
             rcases hst with hcl | ⟨x, f, hh, hg, hd1, hx⟩
             · exact Or.inl hcl
             · exact Or.inr ⟨x, f, hh, hg, hd1, Nat.le_trans hx hlm⟩
-          | child => exact absurd rfl hnc
+          | child sk => exact absurd rfl (hnc sk)
         by_cases hb : busyTotal ps1 = 0
         · rw [if_pos hb] at hf; cases hf
           have hc1 := stateOK_busy0 hs1 hb
@@ -722,7 +743,7 @@ theorem procEv_sim (acts : List Act) (h : Nat) (hch : Chain acts h) :
 
 theorem procSeq_sim (acts : List Act) (h : Nat) (hch : Chain acts h)
     {fuel : Nat} {ev : Ev} {ps ps' : PS} {r : Option String} {d : DS} {c : Option Nat} {lb m : Nat}
-    (hs : StateOK acts h ps d c lb) (hev : EvOK acts h ev c) (hnc : ev ≠ .child) (htm : ev = .tmo → c = none)
+    (hs : StateOK acts h ps d c lb) (hev : EvOK acts h ev c) (hnc : ∀ sk, ev ≠ .child sk) (htm : ev = .tmo → c = none)
     (hlm : lb ≤ m) (hcm : ∀ q, c = some q → q ≤ m) (hab : Above m ps.ins) (hio : ItemsOK acts h ps.ins)
     (hf : procSeq fuel acts ev 0 ps = (ps', r)) :
     ∃ extra d', ps'.toks = ps.toks ++ extra ∧ drun d extra = some d' ∧
